@@ -203,6 +203,146 @@ class _AliasInline:
         visit_block(fn.body)
 
 
+class _GuardedLocals:
+    """A local that only carries an optional value from a guarded assignment to one later test:
+
+        x = None                                   if G1:
+        if G1:                                         if G2:
+            if G2:                         ->              BODY[x := E]
+                x = E
+        ...                  (statements that do not mention x)
+        if x is not None:    (or: if x:  when G2 is the truth of E)
+            BODY
+
+    x is bound exactly twice (the None and the guarded E) and read only in that test and its body; E and the guards are names /
+    field chains / comparisons of them, and no field or name occurring in them is stored anywhere in the function - so the guards
+    and E evaluate the same at the place of use.  (`ephemeral = None; if v >= 2.0: if self._ephemeral: ephemeral = self._ephemeral`
+    ... `if ephemeral is not None: ephemeral.write(..)` is the version-guarded write it abbreviates.)"""
+
+    def run(self, tree):
+        for fn in [n for n in ast.walk(tree) if isinstance(n, (ast.FunctionDef, ast.AsyncFunctionDef))]:
+            while self.function(fn):
+                pass
+        return tree
+
+    @staticmethod
+    def _stable_expr(e, stored_names, stored_attrs):
+        if isinstance(e, ast.Constant):
+            return True
+        if isinstance(e, ast.Name):
+            return e.id not in stored_names
+        if isinstance(e, ast.Attribute):
+            return e.attr not in stored_attrs and '*' not in stored_attrs and _GuardedLocals._stable_expr(e.value, stored_names, stored_attrs)
+        if isinstance(e, ast.Compare):
+            return all(_GuardedLocals._stable_expr(x, stored_names, stored_attrs) for x in [e.left] + e.comparators)
+        if isinstance(e, ast.BoolOp):
+            return all(_GuardedLocals._stable_expr(x, stored_names, stored_attrs) for x in e.values)
+        if isinstance(e, ast.UnaryOp) and isinstance(e.op, ast.Not):
+            return _GuardedLocals._stable_expr(e.operand, stored_names, stored_attrs)
+        return False
+
+    def function(self, fn):
+        nodes = list(_AliasInline._local_nodes(fn))
+        stores, loads = {}, {}
+        stored_attrs = set()
+        for n in nodes:
+            if isinstance(n, ast.Name):
+                (stores if isinstance(n.ctx, (ast.Store, ast.Del)) else loads).setdefault(n.id, []).append(n)
+            elif isinstance(n, ast.Attribute) and isinstance(n.ctx, (ast.Store, ast.Del)):
+                stored_attrs.add(n.attr)
+            elif isinstance(n, ast.Call) and isinstance(n.func, ast.Name) and n.func.id in ('setattr', 'delattr'):
+                stored_attrs.add('*')
+            elif isinstance(n, (ast.Global, ast.Nonlocal)):
+                return False
+        a = fn.args
+        params = {x.arg for x in a.posonlyargs + a.args + a.kwonlyargs + ([a.vararg] if a.vararg else []) + ([a.kwarg] if a.kwarg else [])}
+        nested = set()
+        for n in ast.walk(fn):
+            if n is not fn and isinstance(n, (ast.FunctionDef, ast.AsyncFunctionDef, ast.ClassDef, ast.Lambda)):
+                nested |= {x.id for x in ast.walk(n) if isinstance(x, ast.Name)}
+
+        def blocks(node):
+            for fld in ('body', 'orelse', 'finalbody'):
+                v = getattr(node, fld, None)
+                if isinstance(v, list) and v and isinstance(v[0], ast.stmt):
+                    yield v
+            if isinstance(node, ast.Try):
+                for h in node.handlers:
+                    yield h.body
+
+        def guarded_assign(s, x):
+            """s is `if G1: [if G2: ...] x = E` (no else arms, one statement per arm) -> ([G1, G2..], E)"""
+            gs = []
+            while isinstance(s, ast.If) and not s.orelse and len(s.body) == 1:
+                gs.append(s.test)
+                s = s.body[0]
+            if gs and isinstance(s, ast.Assign) and len(s.targets) == 1 and isinstance(s.targets[0], ast.Name) and s.targets[0].id == x:
+                return gs, s.value
+            return None
+
+        def try_block(stmts):
+            for i, s in enumerate(stmts):
+                if not (isinstance(s, ast.Assign) and len(s.targets) == 1 and isinstance(s.targets[0], ast.Name) and isinstance(s.value, ast.Constant) and s.value.value is None):
+                    continue
+                x = s.targets[0].id
+                if x in params or x in nested or len(stores.get(x, ())) != 2 or i + 2 >= len(stmts) + 0 and False:
+                    continue
+                # the guarded assignment follows (possibly after statements that do not mention x)
+                j = i + 1
+                while j < len(stmts) and not any(isinstance(n, ast.Name) and n.id == x for n in ast.walk(stmts[j])):
+                    j += 1
+                if j >= len(stmts):
+                    continue
+                ga = guarded_assign(stmts[j], x)
+                if ga is None:
+                    continue
+                gs, E = ga
+                k = j + 1
+                while k < len(stmts) and not any(isinstance(n, ast.Name) and n.id == x for n in ast.walk(stmts[k])):
+                    k += 1
+                if k >= len(stmts):
+                    continue
+                u = stmts[k]
+                if not (isinstance(u, ast.If) and not u.orelse):
+                    continue
+                t = u.test
+                by_truth = isinstance(t, ast.Name) and t.id == x
+                by_none = isinstance(t, ast.Compare) and len(t.ops) == 1 and isinstance(t.ops[0], ast.IsNot) and isinstance(t.left, ast.Name) and t.left.id == x \
+                    and isinstance(t.comparators[0], ast.Constant) and t.comparators[0].value is None
+                if not (by_truth or by_none):
+                    continue
+                inside = sum(1 for n in ast.walk(u) if isinstance(n, ast.Name) and n.id == x and isinstance(n.ctx, ast.Load))
+                if inside != len(loads.get(x, ())) or any(isinstance(n, ast.Name) and n.id == x and not isinstance(n.ctx, ast.Load) for n in ast.walk(u)):
+                    continue
+                stored_names = {nm for nm, v in stores.items() if nm != x}
+                if not all(self._stable_expr(g, stored_names, stored_attrs) for g in gs) or not isinstance(E, (ast.Name, ast.Attribute)) \
+                        or not self._stable_expr(E, stored_names, stored_attrs):
+                    continue
+                e_known = any(ast.dump(g) == ast.dump(E) for g in gs) or any(
+                    isinstance(g, ast.Compare) and len(g.ops) == 1 and isinstance(g.ops[0], ast.IsNot) and ast.dump(g.left) == ast.dump(E)
+                    and isinstance(g.comparators[0], ast.Constant) and g.comparators[0].value is None for g in gs)
+                if by_truth and not any(ast.dump(g) == ast.dump(E) for g in gs):
+                    continue            # `if x:` needs the truth of E, which only a guard `if E:` supplies
+                body = [_SubstName(x, E).visit(b) for b in u.body]
+                if not e_known:
+                    body = [ast.copy_location(ast.If(test=ast.copy_location(ast.Compare(left=E, ops=[ast.IsNot()], comparators=[ast.Constant(value=None)]), u), body=body, orelse=[]), u)]
+                for g in reversed(gs):
+                    body = [ast.copy_location(ast.If(test=g, body=body, orelse=[]), u)]
+                ast.fix_missing_locations(body[0])
+                stmts[k] = body[0]
+                stmts[j] = ast.copy_location(ast.Pass(), stmts[j])
+                stmts[i] = ast.copy_location(ast.Pass(), s)
+                return True
+            for s in stmts:
+                if isinstance(s, (ast.FunctionDef, ast.AsyncFunctionDef, ast.ClassDef)):
+                    continue
+                for b in blocks(s):
+                    if try_block(b):
+                        return True
+            return False
+        return try_block(fn.body)
+
+
 class _SubstName(ast.NodeTransformer):
     def __init__(self, name, expr):
         self.name, self.expr = name, expr
@@ -340,6 +480,7 @@ class SourceSet:
             t = _Lower().run(t)
             t = _Canon().visit(t)
             t = _AliasInline().run(t)
+            t = _GuardedLocals().run(t)
             from .tables import expand_tables
             t = expand_tables(t)
             t = _Canon().visit(t)
